@@ -12,7 +12,8 @@ META = {
             "pure-QED factor, which is 1 for the physical grid where gamma[0,0]=0), for orders 1-4, QED orders 1-2 and nf 3-6. "
             "The exponent of every step of the QED singlet/valence iteration at a_em=0, with the half-step coupling equal to the "
             "midpoint, is proved equal to the exponent of the pure-QCD iterated singlet step built from gamma[1:,0] (index shift "
-            "included).",
+            "included)."
+            " End-to-end clause, source-visible parts: sector operators obeying the a_em = 0 relations give the same parton-channel operator through the QED and the QCD branch of ad_to_evol_map and the flavour rotation (nf 3-6); the step ends and mid-points handed to the QED kernels are requested in one flavour number.",
     "note": "Block structure of the a_em^0 grids (photon row/column, Sdelta/Vdelta entries) is decided under C30 for all orders and nf, and "
             "re-evaluated here for three (order, nf) pairs where the non-singlet sectors differ from each other. End-to-end "
             "convergence with the number of iterations is a runtime quantity and is not decided.",
